@@ -1,3 +1,4 @@
 //! C01 with a compile-time level cap (INFO): oracle = accept && level <= INFO.
 const CAP: usize = 3;
+const CAP_BUILD: bool = true;
 include!("../../checks/src/c01_body.rs");
